@@ -38,10 +38,19 @@ theorem good_of (T enc : Bytes) (e d pos' : Nat) (o x : Bytes) (hT : T = o ++ x)
   refine ⟨?_, by rw [hd, hT]; simp [Array.size_append]⟩
   rw [h, he, hd, hT, append_extract_left]
 
-/-- **The block loop of `cut` against the spec decoder**, for streams without dynamic blocks. -/
+/-- What the assembly needs to know about a dynamic block at bit `p`. -/
+def DynOK (s : Bytes) (p : Nat) (out : Bytes) : Prop :=
+  ∀ (c : Cutter) (p1 : Nat) (out1 : Bytes) (isFirst : Bool), c.OK → c.bits.bytes = s → c.bits.pos = p + 3 →
+    blockBody s none 0 p out = .next p1 out1 → c.decodedLen = (out.size : Int) →
+    (out1.size : Int) < 2147483648 →
+    BlockSim s c p out p1 out1 (c.doDynamicHuffman isFirst) ∧ BlockAt s p out p1 out1
+
+/-- **The block loop of `cut` against the spec decoder.**  `hdyn`: what is known about dynamic blocks
+(nothing is needed when there are none, see `Cut_nodyn`; `Cut_all` supplies it for all). -/
 theorem cutLoop_walk (s T : Bytes) (n0 : Nat) (hs : Spec.inflate s = some (T, n0))
     (hT : (T.size : Int) < 2147483648)
-    (hnd : ∀ n p out, RReach s n p out → bitsLE s (p + 1) 2 ≠ 2) (m : Nat) (hm2 : 2 ≤ m) (hm : m ≤ s.size) :
+    (hdyn : ∀ n p out, RReach s n p out → bitsLE s (p + 1) 2 = 2 → DynOK s p out) (m : Nat) (hm2 : 2 ≤ m)
+    (hm : m ≤ s.size) :
     ∀ (fuel n : Nat) (c : Cutter) (prev : Option (Nat × Nat)) (p : Nat) (out : Bytes) (fuelS pE : Nat)
       (enc : Bytes) (e d : Nat),
     RReach s n p out → c.OK → c.bits.bytes = s → c.bits.pos = p → c.maxEncodedLen = m →
@@ -99,7 +108,6 @@ theorem cutLoop_walk (s T : Bytes) (n0 : Nat) (hs : Spec.inflate s = some (T, n0
     have hty3 : bitsLE s (p + 1) 2 ≠ 3 := by
       intro h3
       simp [blockBody, h3] at hbody
-    have hty2 := hnd n p out hr
     have hbt3 : ¬ (bt = 3) := by rw [t2]; omega
     simp only [hbt0, hbt3, if_false] at h
     have hc2 : ({ c with bits := bits2 } : Cutter).OK :=
@@ -109,10 +117,10 @@ theorem cutLoop_walk (s T : Bytes) (n0 : Nat) (hs : Spec.inflate s = some (T, n0
         else Cutter.doDynamicHuffman { c with bits := bits2 } prev.isNone) = blk at h
     have hboth : BlockSim s { c with bits := bits2 } p out p1 out1 blk ∧ BlockAt s p out p1 out1 := by
       rw [← hblk]
-      have : bitsLE s (p + 1) 2 = 0 ∨ bitsLE s (p + 1) 2 = 1 := by
+      have : bitsLE s (p + 1) 2 = 0 ∨ bitsLE s (p + 1) 2 = 1 ∨ bitsLE s (p + 1) 2 = 2 := by
         have : (2 : Nat) ^ 2 = 4 := by decide
         omega
-      rcases this with hty | hty
+      rcases this with hty | hty | hty
       · have : bt = 0 := by rw [t2, hty]; rfl
         rw [this]
         simp only [if_true]
@@ -122,6 +130,12 @@ theorem cutLoop_walk (s T : Bytes) (n0 : Nat) (hs : Spec.inflate s = some (T, n0
         have e10 : ¬ ((1 : Int) = 0) := by omega
         simp only [e10, if_false, if_true]
         exact ⟨fixed_blocksim s _ hc2 hy p q2 out p1 out1 hty hbody hcd hT1sz _, blockAt_fixed s p out p1 out1 hty hbody⟩
+      · have : bt = 2 := by rw [t2, hty]; rfl
+        rw [this]
+        have e20 : ¬ ((2 : Int) = 0) := by omega
+        have e21 : ¬ ((2 : Int) = 1) := by omega
+        simp only [e20, e21, if_false]
+        exact hdyn n p out hr hty _ p1 out1 _ hc2 hy q2 hbody hcd hT1sz
     obtain ⟨hsim, hblkAt⟩ := hboth
     obtain ⟨c3, err⟩ := blk
     obtain ⟨k1, k2, k3, k4, k5, k6⟩ := hsim
@@ -294,7 +308,7 @@ theorem Cut_nodyn (w : Bool) (s T : Bytes) (n0 : Nat) (limit : Int) (r : CutResu
       split at h
       · simp at h
       · rename_i enc eLen dLen hc
-        have hg := cutLoop_walk s T n0 hs (by omega) hnd m (by omega) hcl.1 (8 * s.size + 2) 0
+        have hg := cutLoop_walk s T n0 hs (by omega) (fun n p out hr h2 => absurd h2 (hnd n p out hr)) m (by omega) hcl.1 (8 * s.size + 2) 0
           ⟨⟨s, 0, 0, 0⟩, m, 0, 0, 0, Huffman.zero, Huffman.zero⟩ none 0 #[] (8 * s.size + 1) pE enc eLen dLen
           RReach.zero ⟨inv_fresh s 0 (Nat.zero_le _), hcl.1, Huffman.zero_shape, Huffman.zero_shape⟩ rfl rfl rfl
           (by simp) rfl hblk hc
